@@ -265,6 +265,26 @@ def f2q(x):
     return [str(q.numerator), str(q.denominator)]
 
 
+def construct_request(case):
+    """What the run feeds to the graph constructor, for the model: per event the definition of its event type in force (concept
+    associations and relations) and its objects."""
+    up = case.get('upgrade_at')
+    by_name = {e['name']: e for e in case['spec']['ets']}
+    out = []
+    for k, i in enumerate(case['order']):
+        ev = case['spec']['events'][i]
+        e = by_name[ev['type']]
+        props = [{'name': p['name'], 'ot': p['ot'], 'assocs': [a['concept'] for a in p['assocs']]} for p in e['props']]
+        objs = [[n, list(vs)] for n, vs in ev['props']]
+        if up is not None and k >= up and e.get('later_prop'):
+            props.append({'name': 'px', 'ot': 'oa', 'assocs': ['ca']})
+            objs.append(['px', ['vx%d' % k]])
+        rels = [{'kind': r['kind'] if r['kind'] in ('inter', 'intra') else 'other', 'source': r['source'], 'target': r['target'],
+                 'sc': r.get('sc') or '', 'tc': r.get('tc') or ''} for r in e['rels']]
+        out.append({'et': {'props': props, 'rels': rels}, 'props': objs})
+    return {'op': 'construct', 'events': out}
+
+
 def bystander_spec(spec):
     """The same event type names defined differently: event types with concept relations lose them, the others get one."""
     out = json.loads(json.dumps(spec))
@@ -375,6 +395,9 @@ def run(spec, order, min_conf, max_depth, upgrade_at=None, mine_at=None, refuse_
                           'seed_conf': seed_conf, 'related': sorted([k, v] for k, v in inst.get_related_concepts().items()),
                           'names': sorted([k, v] for k, v in inst.get_concept_names().items())})
         taints = sorted([n.id, n.taint] for n in nodes)
+        from edxml.miner.inference import RelationInference
+        graph_view = {'nodes': sorted(n.id for n in nodes),
+                      'links': sorted({(e.source.id, e.target.id) for n in nodes for e in n.get_inferences() if isinstance(e, RelationInference)})}
         # per node: its seed confidences in the order the seeds were mined (dict order), its taint, whether it was a seed
         taint_checks = [[[f2q(c) for c in n.seed_confidences.values()], n.taint, n.id in kb.concept_collection.concepts] for n in nodes]
         covered = {nid for inst in kb.concept_collection.concepts.values() for a in inst.attributes for nid in a.nodes}
@@ -408,7 +431,7 @@ def run(spec, order, min_conf, max_depth, upgrade_at=None, mine_at=None, refuse_
         return {'skipped': False, 'outcome': 'inspect-raised:' + type(ex).__name__ + ':' + str(ex)[:100]}
     return {'skipped': False, 'outcome': 'ok', 'instances': insts, 'taints': taints, 'uncovered': uncovered, 'json_same': json_same, 'titles_same': titles_same,
             'universals': uni, 'noisy_checks': noisy_checks, 'taint_checks': taint_checks, 'n_nodes': len(nodes),
-            'passes': tracer.passes, 'picks': tracer.picks, 'trace_problem': tracer.problem,
+            'passes': tracer.passes, 'picks': tracer.picks, 'trace_problem': tracer.problem, 'graph': graph_view,
             'late_missing': sorted(v for v in late_values if not any(a['value'] == v for inst in insts for a in inst['attrs'])),
             # coverage, from the events themselves (not from the nodes the graph happens to hold): every object of a property that
             # is associated with a concept
@@ -425,6 +448,8 @@ class C20(Property):
         'noisyOr_unit', 'noisyOr_ge_each', 'attribute_meets_minimum', 'taintOf_unit', 'taintHistory_unit', 'taintHistory_mono', 'dijkstra_unit', 'relatedStep_unit',
         'round_decreases', 'rounds_bounded', 'universals_exact', 'tenth_unit',
         'pickOk_sound', 'scoped_checker_refines', 'never_crosses_inter', 'inScope_unit', 'search_wellformed', 'search_terminates', 'search_sorted', 'search_visited_final', 'checker_exact', 'coverage',
+        'construct_covers', 'nodes_sound', 'nodes_concept', 'links_closed', 'links_symm', 'links_complete', 'graph_covers', 'graph_nodes_event',
+        'old_construction_misses', 'old_agrees_when_sources_present',
     )
     level_text = ('PARTIAL. Lean 4 theorems over (a) the confidence arithmetic of the miner on exact rationals: every noisy-or '
                   'combination (attribute, concept name and related concept confidences), the taint formula as the SDK computes '
@@ -445,13 +470,17 @@ class C20(Property):
                   'pass may use is modelled too (edges to hubs and of intra-concept relations always, of inter-concept relations '
                   'never, from a hub to an object node when the concept names collected in the seed put its concept in scope '
                   'above the minimum): the trace lists every outgoing edge of every processed node with what the pass made of it, '
-                  'and the checker decides it again (scoped_checker_refines, never_crosses_inter, inScope_unit). Hub construction, '
-                  'graph construction from events and the JSON round trip are judged by the independent oracle only: tested, not '
-                  'proved.')
-    level_note = ('PARTIAL: hub construction and graph construction from events (which nodes and edges exist) are inputs of the '
+                  'and the checker decides it again (scoped_checker_refines, never_crosses_inter, inScope_unit); (e) graph construction '
+                  'from events (GraphConstructor.add): every object an event holds for a concept-associated property gets a node '
+                  '(construct_covers, graph_covers: the first half of coverage), nodes stand for objects the event holds and carry a '
+                  'concept of their property, links join different nodes of one event in both directions and every source object of '
+                  'a concept relation with every target object; the node and link sets of every real run are compared with the '
+                  'model (op construct). Hub construction and the JSON round trip are judged by the independent oracle only: '
+                  'tested, not proved.')
+    level_note = ('PARTIAL: hub construction (which hubs exist when a pass starts) is an input of the '
                   'model, not modelled; binary floating point is modelled by exact '
                   'rationals (the checker grants products a slack of 1e-9; theorems are about slack 0).')
-    technique = 'Lean 4 proof (invariants of the reasoning pass by induction over executions; bounds of the confidence arithmetic by induction over lists; termination measures; set characterisation of universals) + trace replay and differential correspondence; oracle-based testing of graph construction and JSON'
+    technique = 'Lean 4 proof (invariants of the reasoning pass by induction over executions; bounds of the confidence arithmetic by induction over lists; termination measures; set characterisation of universals) + trace replay and differential correspondence; oracle-based testing of hub construction and JSON'
     parallel = True
     assumptions = ('confidences of the ontology are integers 0..10',)
 
@@ -504,6 +533,7 @@ class C20(Property):
         # what is compared with the model: the arithmetic on the real values (rounded) and the universals
         return {'skipped': False, 'outcome': 'ok', 'noisy': [round(c[1], 9) for c in r['noisy_checks']],
                 'taint': [round(c[1], 9) for c in r['taint_checks']],
+                'graph': {'nodes': r['graph']['nodes'], 'links': [list(x) for x in r['graph']['links']]},
                 'taint_ok': self.taint_consistent(r), 'universals': r['universals'], 'search': self.search_view(r), 'picks': ['ok'] * len(r['picks']), 'detail': r}
 
     @staticmethod
@@ -527,8 +557,9 @@ class C20(Property):
         rels = []
         by_et = {e['name']: e for e in case['spec']['ets']}
         evs = []
+        # the graph: which nodes and links the events yield
+        reqs = [construct_request(case)]
         # universals are mined per event with the relations of its own event type: one request per event type
-        reqs = []
         up = case.get('upgrade_at')
         ordered = [case['spec']['events'][i] for i in case['order']]
         for e in case['spec']['ets']:
@@ -554,7 +585,9 @@ class C20(Property):
         uni = {'names': set(), 'descriptions': set(), 'containers': set()}
         picks = ['ok' if ok else 'not a choice find_optimal_seed can make (an untainted, most confident event object node; none only when all are tainted)'
                  for ok in replies[-1]['ok']]
-        replies = replies[:-1]
+        graph = {'nodes': sorted(set(replies[0]['nodes'])), 'links': sorted({(a, b) for a, b in replies[0]['links']})}
+        graph['links'] = [list(x) for x in graph['links']]
+        replies = replies[1:-1]
         n_search = sum(1 for rep in replies if 'valid' in rep)
         arith = replies[len(replies) - n_search - 1]
         for rep in replies[:len(replies) - n_search - 1]:
@@ -568,7 +601,7 @@ class C20(Property):
                 search.append(['accepted', [None if c is None else float(Fraction(int(c[0]), int(c[1]))) for c in rep['sc']]])
             else:
                 search.append(['not an execution of the reasoning pass: entry %d of the trace (%s)' % (rep['firstBad'], rep.get('why')), None])
-        return {'skipped': False, 'outcome': 'ok', 'noisy': noisy, 'taint': taint, 'taint_ok': True,
+        return {'skipped': False, 'outcome': 'ok', 'noisy': noisy, 'taint': taint, 'taint_ok': True, 'graph': graph,
                 'universals': {k: sorted(list(x) for x in v) for k, v in uni.items()}, 'search': search, 'picks': picks, 'detail': 'undecided'}
 
     def fill_undecided(self, case, obs, pred):
